@@ -18,7 +18,9 @@ RULE = ("Cases = format {json, xml, rdf, provn} x file-name class {plain relativ
         "serialize(destination=name) in a CHILD PROCESS under strace: first fault-free to take the census of the "
         "write-family syscalls (write, pwrite64, writev, sendfile, copy_file_range) and rename-family syscalls that "
         "touch the scratch directories, then once per census entry with that very syscall invocation failing (ENOSPC / "
-        "EIO for writes, EACCES for renames), plus a run whose serialisation itself raises half way. Within a case the "
+        "EIO for writes, EACCES for renames), plus a run whose serialisation itself raises half way, plus four runs under "
+        "a file-size limit (RLIMIT_FSIZE at 1/4, 1/2, len-7, len-1: the kernel performs a real SHORT write and fails the "
+        "next one), plus a fault-free run that uses the same relative name from two working directories. Within a case the "
         "fault points are enumerated exhaustively. Oracle fault-free: exit 'returned', the work directory holds the old "
         "entries plus exactly the named file, whose bytes equal serialize(BytesIO). With a fault exactly two outcomes are "
         "accepted: 'exception propagated' with the named file byte-identical to its old content (or still absent), or "
@@ -35,7 +37,7 @@ NAMES = {
     "question": "a?b.%s", "semicolon": "a;b.%s", "colon": "x:y.%s", "percent": "p%%41q.%s",
 }
 OLD = b"OLD CONTENT that must survive a failed write\n" * 3
-REQUIRED_CLASSES = {"all": ["fault:write:fired", "fault:rename:fired", "fault:serialisation_raises", "name:hash", "name:colon",
+REQUIRED_CLASSES = {"all": ["fault:write:fired", "fault:rename:fired", "fault:serialisation_raises", "fault:short_write_then_EFBIG", "sequence:two_directories", "name:hash", "name:colon",
                             "preexisting:True", "preexisting:False", "tmp:other_device", "outcome:exception_and_old_content"]}
 
 
@@ -99,7 +101,7 @@ def _listing(d):
     return out
 
 
-def run_child(case, scratch, inject=None, poison=False):
+def run_child(case, scratch, inject=None, poison=False, extra=None):
     """-> (exit code, strace log lines, work dir, tmp dir, file name as given, absolute path of the named file)"""
     work = os.path.join(scratch, "work")
     tmpd = os.path.join("/dev/shm", "c17-" + os.path.basename(scratch) + "-" + str(os.getpid())) if case["tmp"] == "other" else os.path.join(scratch, "tmp")
@@ -124,6 +126,8 @@ def run_child(case, scratch, inject=None, poison=False):
     cmd += [sys.executable, "-B", os.path.abspath(childmod.__file__), src, work, case["fmt"], name, str(case["size"])]
     if poison:
         cmd.append("raise")
+    elif extra:
+        cmd.append(extra)
     env = dict(os.environ, TMPDIR=tmpd, PYTHONDONTWRITEBYTECODE="1", PYTHONPATH=src)
     p = subprocess.run(cmd, env=env, stdin=subprocess.DEVNULL, stdout=subprocess.DEVNULL, stderr=subprocess.DEVNULL, timeout=300)
     with open(log, errors="replace") as f:
@@ -193,6 +197,21 @@ def check(case, ctx):
                     return items
         if urlish:
             ctx.nontrivial(True)
+        # ---- the same relative name used from two working directories in one process
+        if not os.path.isabs(name):
+            work2 = os.path.join(scratch, "work2")
+            shutil.rmtree(work2, ignore_errors=True)
+            os.makedirs(work2)
+            rc2, lines2, work, tmpd, name, target = run_child(case, scratch, extra="again=" + work2)
+            ctx.count("child_runs")
+            ctx.count("sequence:two_directories")
+            ok1 = os.path.exists(target) and (open(target, "rb").read() == expected or _same(case["fmt"], open(target, "rb").read(), expected))
+            t2 = os.path.join(work2, name)
+            ok2 = os.path.exists(t2) and (open(t2, "rb").read() == expected or _same(case["fmt"], open(t2, "rb").read(), expected))
+            if rc2 != 0 or not ok1 or not ok2:
+                items.append(_it("same_relative_name_in_two_directories", rc=rc2, first_ok=ok1, second_ok=ok2,
+                                 second_dir_listing=sorted(_listing(work2))[:4]))
+                return items
         points = census(lines, [os.path.basename(scratch), os.path.basename(tmpd)])
         ctx.count("census_points", len(points))
         leftovers = len(_listing(tmpd))
@@ -200,17 +219,25 @@ def check(case, ctx):
             ctx.count("tmp_leftover_after_success")
         # ---- one run per fault point
         runs = [("poison", None)]
+        # real short writes: a file-size limit at several cut points (the kernel writes up to the limit, then fails)
+        for cut in sorted({max(1, len(expected) // 4), len(expected) // 2, max(1, len(expected) - 7), max(1, len(expected) - 1)}):
+            runs.append(("fsize", cut))
         for sc, n, text in points:
             fam = "rename" if sc.startswith("rename") else "write"
             for err in (("ENOSPC", "EIO") if fam == "write" else ("EACCES",)):
                 runs.append((fam, (sc, err, n)))
         for fam, inj in runs:
-            rc, lines, work, tmpd, name, target = run_child(case, scratch, inject=inj, poison=(fam == "poison"))
+            if fam == "fsize":
+                rc, lines, work, tmpd, name, target = run_child(case, scratch, extra="fsize=%d" % inj)
+            else:
+                rc, lines, work, tmpd, name, target = run_child(case, scratch, inject=inj, poison=(fam == "poison"))
             ctx.count("child_runs")
             ctx.evaluations += 1
-            fired = fam == "poison" or any("(INJECTED)" in ln for ln in lines)
+            fired = fam in ("poison", "fsize") or any("(INJECTED)" in ln for ln in lines)
             if fam == "poison":
                 ctx.count("fault:serialisation_raises")
+            elif fam == "fsize":
+                ctx.count("fault:short_write_then_EFBIG")
             elif fired:
                 ctx.count("fault:%s:fired" % fam)
             else:
@@ -233,7 +260,7 @@ def check(case, ctx):
             else:
                 state = "absent" if not exists else ("empty" if not data else ("truncated" if expected.startswith(data) or len(data) < len(expected) else "other"))
                 items.append(_it("%s_fault:%s:destination_%s" % (fam, "returned" if rc == 0 else "raised" if rc == 3 else "rc%d" % rc, state),
-                                 inject=list(inj) if inj else None, pre=case["pre"], size=len(data) if data else 0, expected=len(expected)))
+                                 inject=(list(inj) if isinstance(inj, tuple) else inj), pre=case["pre"], size=len(data) if data else 0, expected=len(expected)))
                 return items
             # bystanders untouched
             for b_ in before:
